@@ -226,7 +226,40 @@ def siblings(container, c1, n1, c2, n2, explicit, v1, v2, indef):
     return None
 
 
+def nested_same(c, ni, outer_explicit, inner_explicit, v, indef):
+    """A tagged SEQUENCE whose member carries the *same* class and number: the same tag occurs in constructed and primitive form
+    within one encoding.  Encoder output == reference; the type accepts it; the type with the inner number changed rejects."""
+    cl, num = "ACP"[c], POOL[ni]
+    inner = T("INT").tagged(("E" if inner_explicit else "I", cl, num))
+    outer_tag = ("E" if outer_explicit else "I", cl, num)
+    t = T("SEQ", comps=[("x", inner, "req", None), ("y", T("OCTS").tagged(("I", cl, num + 1)), "opt", None)]).tagged(outer_tag)
+    t_bad = T("SEQ", comps=[("x", T("INT").tagged(("E" if inner_explicit else "I", cl, num + 1)), "req", None)]).tagged(outer_tag)
+    av = {"x": v, "y": b"k"}
+
+    class Ch(R.Choices):
+        def indef(self, t_, level):
+            return indef
+
+    enc = bytes(R.ber_nd(t, av, Ch()))
+    if not indef and ber_encoder.encode(build(t, av)) != enc:
+        return "encoder output differs from the reference encoding (same tag nested in both forms)"
+    try:
+        w, rest = ber_decoder.decode(substrate(enc), asn1Spec=mk_type(t))
+    except error.PyAsn1Error:
+        return "the type rejects its own encoding (tag %s%d nested in constructed and primitive form)" % (cl, num)
+    if len(rest) or not same(t, absval(t, w), av):
+        return "decoded to a different value"
+    try:
+        ber_decoder.decode(substrate(enc), asn1Spec=mk_type(t_bad))
+    except error.PyAsn1Error:
+        return None
+    return "a type whose inner tag number differs accepts the encoding"
+
+
 OBLIGATIONS = [
+    Obl("nested_same", nested_same, {"c": I(0, 2), "ni": I(0, len(POOL) - 1), "outer_explicit": B, "inner_explicit": B, "v": I(127, 128), "indef": B},
+        shards=[{"ni": C(a), "outer_explicit": C(o_)} for a in range(len(POOL)) for o_ in (False, True)], budget=120,
+        doc="the same class and number as the tag of a SEQUENCE and of its member (constructed and primitive form of one tag in one encoding), pool numbers incl. long form"),
     Obl("siblings", siblings, {"container": I(0, 1), "c1": I(0, 2), "n1": I(0, len(POOL) - 1), "c2": I(0, 2), "n2": I(0, len(POOL) - 1), "explicit": B,
                                "v1": I(5, 6), "v2": I(199, 200), "indef": B},
         shards=[{"container": C(k), "n1": C(a), "explicit": C(e_), "indef": C(i_)} for k in (0, 1) for a in range(len(POOL)) for e_ in (False, True) for i_ in (False, True)], budget=150,
